@@ -21,8 +21,17 @@ Record obs := {
   o_comm : list Z       (* current - initial *)
 }.
 
+(** round 2: a step may carry probes — other operations (the same operation under every fault
+    point, as an error and as a panic) run from the step's PRE-state on a branch of the real store
+    that is discarded; [PSame ok]: the probe reported [ok] and left every observable as it was.
+    Bulk steps of long histories (more than 100 sends for one token) record only the outcome. *)
+Inductive pobs := PSame (ok : bool) | PObs (o : obs).
+Inductive mobs := MFull (o : obs) | MOk (ok : bool).
+Definition pstep := (op * mobs * list (op * pobs))%type.
+
 Inductive case :=
-| CHist (tb : list (Z * Z * Z)) (bals0 : list Z) (steps : list (op * obs)).
+| CHist (tb : list (Z * Z * Z)) (bals0 : list Z) (steps : list (op * obs))
+| CHistP (tb : list (Z * Z * Z)) (bals0 : list Z) (steps : list pstep).
 
 Definition users : list Z := [0; 1; 2].
 Definition denoms : list Z := [0; 1; 2].
@@ -52,10 +61,59 @@ Fixpoint replay (s : state) (steps : list (op * obs)) : bool :=
   | (o, ob) :: r => let (s', out) := step s o in step_ok s' out ob && replay s' r
   end.
 
+Definition out_eqb (out : outcome) (ok : bool) : bool := Bool.eqb (match out with Ok => true | Err => false end) ok.
+
+(** every observable of [s'] equals that of [s] *)
+Definition same_obs (s s' : state) : bool :=
+  list_eqb tx_eqb (map tx_obs (pool s')) (map tx_obs (pool s))
+  && list_eqb batch_eqb (map batch_obs (batches s')) (map batch_obs (batches s))
+  && list_eqb Z.eqb (flat_map (fun u => map (fun d => bal s' u d) denoms) users) (flat_map (fun u => map (fun d => bal s u d) denoms) users)
+  && list_eqb Z.eqb (map (escrow s') denoms) (map (escrow s) denoms)
+  && list_eqb Z.eqb (map (supply s') denoms) (map (supply s) denoms)
+  && list_eqb Z.eqb (map (comm s') denoms) (map (comm s) denoms).
+
+Definition probe_ok (s : state) (p : op * pobs) : bool :=
+  let (o, ob) := p in
+  let (s', out) := step s o in
+  match ob with
+  | PSame ok => out_eqb out ok && same_obs s s'
+  | PObs ob => step_ok s' out ob
+  end.
+
+Fixpoint replayP (s : state) (steps : list pstep) : bool :=
+  match steps with
+  | [] => true
+  | (o, ob, probes) :: r =>
+      forallb (probe_ok s) probes &&
+      (let (s', out) := step s o in
+       match ob with MFull ob => step_ok s' out ob | MOk ok => out_eqb out ok end && replayP s' r)
+  end.
+
 Definition bal0 (l : list Z) : Z -> Z -> Z :=
   fun u d => if (0 <=? u) && (u <? 3) && (0 <=? d) && (d <? 3) then nth (Z.to_nat (u * 3 + d)) l 0 else 0.
 
 Definition check (c : case) : bool :=
   match c with
   | CHist tb b0 steps => replay (init tb (bal0 b0) (fun _ => 0)) steps
+  | CHistP tb b0 steps => replayP (init tb (bal0 b0) (fun _ => 0)) steps
+  end.
+
+(** debugging aid (not used by the check): index of the first step whose main observation or one of
+    whose probes disagrees, and which *)
+Fixpoint first_badP (i : nat) (s : state) (steps : list pstep) : option (nat * nat) :=
+  match steps with
+  | [] => None
+  | (o, ob, probes) :: r =>
+      match find (fun ip => negb (probe_ok s (snd ip))) (combine (seq 1 (length probes)) probes) with
+      | Some (j, _) => Some (i, j)
+      | None =>
+          let (s', out) := step s o in
+          if match ob with MFull ob => step_ok s' out ob | MOk ok => out_eqb out ok end
+          then first_badP (S i) s' r else Some (i, 0%nat)
+      end
+  end.
+Definition first_bad (c : case) : option (nat * nat) :=
+  match c with
+  | CHist _ _ _ => None
+  | CHistP tb b0 steps => first_badP 0 (init tb (bal0 b0) (fun _ => 0)) steps
   end.
